@@ -4,6 +4,7 @@ import engine_common
 
 def run(chk, replay=None):
     engine_common.run_engine(chk, "C11", ["adv.ndjson"],
-                             mc=["EngineServer.cfg", "EngineClient.cfg", "EngineClientLive.cfg"],
-                             mc_thorough=["EngineServerThorough.cfg", "EngineClientThorough.cfg"],
+                             mc=["EngineServer.cfg", "EngineClient.cfg"],
+                             mc_thorough=["EngineClientLive.cfg", "EngineServerThorough.cfg", "EngineClientThorough.cfg"],
                              must_fail=["EngineBadToken.cfg"])
+    engine_common.real_protocol_traces(chk, "C11")
